@@ -235,7 +235,9 @@ let mut rows: BTreeMap<u32, Vec<xx::XCell>> = BTreeMap::new();
             xx::XRow { r, explicit: row_refs, attrs: false, cells }
         })
         .collect();
-    let doc = xx::XlsxDoc { sheets: vec![xx::XSheet { name: "Main".into(), rows, ..Default::default() }], ..Default::default() };
+    // the worksheet part may bind the SpreadsheetML namespace to a prefix (x:c, x:f, x:v)
+    let enc = xx::XEnc { prefix_sheet: case.class_knob & 0x80 != 0, prefix_workbook: case.class_knob & 0x08 != 0, ..Default::default() };
+    let doc = xx::XlsxDoc { sheets: vec![xx::XSheet { name: "Main".into(), rows, ..Default::default() }], enc, ..Default::default() };
     doc
 }
 
